@@ -730,6 +730,39 @@ def readers_read_only(ctx: Ctx, v: LocalView, rule: str) -> int:
     return n
 
 
+def every_path_answered(ctx: Ctx, rule: str) -> int:
+    """fetch_paths of every store: the statement that files a path's key in the returned mapping runs once per requested path (it sits in
+    the loop over the paths, keyed by the loop variable) - not once after the loop with the last path"""
+    rep = ctx.report
+    prog = ctx.prog
+    n = 0
+    for cq in sorted(prog.subclasses("dds.store.Store")):
+        c = prog.classes[cq]
+        f = c.methods.get("fetch_paths")
+        if f is None:
+            continue
+        rets = {r.value.id for r in f.own_nodes() if isinstance(r, ast.Return) and isinstance(r.value, ast.Name)}
+        loops = [x for x in f.own_nodes() if isinstance(x, ast.For)]
+        for st in f.own_nodes():
+            if not (isinstance(st, ast.Assign) and len(st.targets) == 1 and isinstance(st.targets[0], ast.Subscript) and isinstance(st.targets[0].value, ast.Name)
+                    and st.targets[0].value.id in rets):
+                continue
+            keynames = {y.id for y in ast.walk(st.targets[0].slice) if isinstance(y, ast.Name)}
+            owning = [lp for lp in loops if keynames & {y.id for y in ast.walk(lp.target) if isinstance(y, ast.Name)}]
+            if not owning:
+                continue
+            n += 1
+            inside = any(any(st is y for b_ in lp.body for y in ast.walk(b_)) for lp in owning)
+            desc = f"{c.name}.fetch_paths files `{unparse(st, 50)}` once per requested path"
+            if inside:
+                rep.ok(rule, f.qname, desc, f.loc(st))
+            else:
+                rep.bad(rule, f.qname, desc, f.loc(st), [f"{f.loc(st)}: the statement is after the loop at {f.loc(owning[0])}: only the last requested path is answered",
+                        "an evaluation that loads two or more external paths fails ('loaded before it is produced'), although every record exists"], stmt_key(st),
+                        what=f"{c.name}.fetch_paths answers only the last requested path")
+    return n
+
+
 def path_entry_presence(ctx: Ctx, v: "LocalView", rule: str) -> int:
     """fetch_paths resolves a path entry only after `os.path.exists(<that entry>)` held: the test follows the link (a link whose blob is
     gone - a failed or killed evaluation - is not a committed path) and it is made on the entry itself, not on its directory"""
